@@ -1371,7 +1371,7 @@ func (g *Gen) paramMsg(w *World) MsgSpec {
 			case 2:
 				p.Limit = 0
 			case 3:
-				p.Denom = pick(g.R, []string{"", " ", "1x", "a"})
+				p.Denom = pick(g.R, []string{"", " ", "1x", "a", e.Denom + " ", " " + e.Denom, e.Denom + "\t", "\n" + e.Denom, strings.ToUpper(e.Denom[:1]) + e.Denom[1:] + "!"})
 			case 4:
 				p.EntSigners = pick(g.R, []string{"", "garbage", AddrOf(w.Actors, 1).String() + ",", " " + AddrOf(w.Actors, 1).String(), AddrOf(w.Actors, 1).String() + ",und1xyz"})
 			case 5:
@@ -1426,7 +1426,7 @@ func (g *Gen) paramMsg(w *World) MsgSpec {
 			case 5:
 				p.DefLimit = p.MaxLimit + 1
 			case 6:
-				p.Denom = pick(g.R, []string{"", "  ", "9", "x"})
+				p.Denom = pick(g.R, []string{"", "  ", "9", "x", cur.Denom + " ", " " + cur.Denom, cur.Denom + "\n", "\t" + cur.Denom, cur.Denom + "/"})
 			}
 		}
 		if g.ghostReg == nil {
